@@ -1010,6 +1010,7 @@ func c09GridCases() []*c09Case {
 			add([]string{"-top", "-" + o + "=" + v})
 		}
 	}
+	out = append(out, c09SourceSpecCases()...)
 	// name adversaries: each profile with four of the output commands (rotating)
 	nameCmds := [][]string{{"-top"}, {"-tree"}, {"-traces"}, {"-tags"}, {"-dot"}, {"-callgrind"}, {"-weblist=."}, {"-list=."}, {"-peek=."}, {"-top", "-lines"}, {"-raw"}, {"-topproto"}}
 	for i, nc := range c09NameCases() {
@@ -1102,6 +1103,149 @@ func c09NameCases() []c09NameCase {
 					what = "sample type/unit/comment"
 				}
 				out = append(out, c09NameCase{p, fmt.Sprintf("%s = %s %.24q", what, posName[pos], tok), grp == 1})
+			}
+		}
+	}
+	return out
+}
+
+// ---------------------------------------------------------------------------------------------
+// degenerate (but valid) profiles x source-spec forms
+// ---------------------------------------------------------------------------------------------
+
+type c09Shape struct {
+	name string
+	p    *profile.Profile
+}
+
+// c09DegenerateProfiles: valid profiles in which one kind of entity is missing altogether.
+func c09DegenerateProfiles() []c09Shape {
+	var out []c09Shape
+	add := func(name string, edit func(p *profile.Profile)) {
+		p := c09GridProfile()
+		edit(p)
+		out = append(out, c09Shape{name, p})
+	}
+	add("full", func(p *profile.Profile) {})
+	add("no-samples", func(p *profile.Profile) { p.Sample = nil })
+	add("no-locations", func(p *profile.Profile) {
+		for _, s := range p.Sample {
+			s.Location = nil
+		}
+		p.Location, p.Function = nil, nil
+	})
+	add("no-mappings", func(p *profile.Profile) {
+		for _, l := range p.Location {
+			l.Mapping = nil
+		}
+		p.Mapping = nil
+	})
+	add("no-functions", func(p *profile.Profile) {
+		for _, l := range p.Location {
+			l.Line = nil
+		}
+		p.Function = nil
+	})
+	add("locations-without-mappings", func(p *profile.Profile) {
+		for _, l := range p.Location {
+			l.Mapping = nil
+		}
+	})
+	add("mappings-without-locations", func(p *profile.Profile) {
+		p.Sample, p.Location, p.Function = nil, nil, nil
+		p.Mapping = append(p.Mapping, &profile.Mapping{ID: 2, Start: 0x10000, Limit: 0x20000, File: "/lib/other.so"})
+	})
+	add("one-sample-no-locations", func(p *profile.Profile) {
+		p.Sample = []*profile.Sample{{Value: []int64{7, 70}}}
+		p.Location, p.Function, p.Mapping = nil, nil, nil
+	})
+	add("idle-process", func(p *profile.Profile) {
+		p.Sample, p.Location, p.Function, p.Mapping = nil, nil, nil, nil
+		p.Comments = []string{"idle"}
+		p.DurationNanos, p.TimeNanos = 1e9, 1
+	})
+	add("empty-strings", func(p *profile.Profile) {
+		for _, st := range p.SampleType {
+			st.Unit = ""
+		}
+		p.SampleType[0].Type = ""
+		p.PeriodType = &profile.ValueType{}
+		for _, f := range p.Function {
+			f.Name, f.SystemName, f.Filename = "", "", ""
+		}
+		p.Mapping[0].File, p.Mapping[0].BuildID = "", ""
+		p.Comments = []string{""}
+	})
+	add("one-sample-type", func(p *profile.Profile) {
+		p.SampleType = p.SampleType[:1]
+		for _, s := range p.Sample {
+			s.Value = s.Value[:1]
+		}
+		p.PeriodType, p.Period = nil, 0
+	})
+	add("no-mappings-no-functions", func(p *profile.Profile) {
+		for _, l := range p.Location {
+			l.Mapping, l.Line = nil, nil
+		}
+		p.Mapping, p.Function = nil, nil
+	})
+	add("zero-values-only", func(p *profile.Profile) {
+		for _, s := range p.Sample {
+			for i := range s.Value {
+				s.Value[i] = 0
+			}
+		}
+	})
+	out = append(out, c09Shape{"no-sample-types", &profile.Profile{}}) // loads with an error, never a crash
+	return out
+}
+
+// c09SourceSpecCases: every source-spec form x every degenerate profile x {-top, -raw, interactive}.
+func c09SourceSpecCases() []*c09Case {
+	type form struct {
+		name   string
+		args   []string
+		binary bool
+		twice  bool
+		remote bool
+		base   int // 0 none, 1 -base same, 2 -diff_base same
+	}
+	forms := []form{
+		{name: "plain"}, {name: "binary", binary: true}, {name: "buildid", args: []string{"-buildid=abcdef0123"}}, {name: "buildid-1char", args: []string{"-buildid=a"}},
+		{name: "binary+buildid", args: []string{"-buildid=ff00"}, binary: true}, {name: "symbolize=none", args: []string{"-symbolize=none"}},
+		{name: "symbolize=local", args: []string{"-symbolize=local"}}, {name: "symbolize=fastlocal:force", args: []string{"-symbolize=fastlocal:force"}},
+		{name: "symbolize=remote", args: []string{"-symbolize=remote"}}, {name: "symbolize=demangle=full", args: []string{"-symbolize=demangle=full"}},
+		{name: "base", base: 1}, {name: "diff_base", base: 2}, {name: "diff_base+normalize", args: []string{"-normalize"}, base: 2},
+		{name: "add_comment", args: []string{"-add_comment=note"}}, {name: "tools", args: []string{"-tools=/nonexistent/tools"}},
+		{name: "source_path", args: []string{"-source_path=/nonexistent/src", "-trim_path=/src"}}, {name: "two-sources", twice: true},
+		{name: "binary+two-sources", binary: true, twice: true}, {name: "http-source", remote: true}, {name: "http-source+binary+buildid", args: []string{"-buildid=abc"}, binary: true, remote: true},
+	}
+	var out []*c09Case
+	for _, sh := range c09DegenerateProfiles() {
+		pb := c09ProfileBytes(sh.p)
+		if pb == nil {
+			continue
+		}
+		ph := hex.EncodeToString(pb)
+		for _, f := range forms {
+			for mode := 0; mode < 3; mode++ {
+				cs := &c09Case{Kind: "cli", Profile: ph, Binary: f.binary, Twice: f.twice, Remote: f.remote}
+				args := append([]string{}, f.args...)
+				switch mode {
+				case 0:
+					args = append(args, "-top", "-output=grid.out")
+				case 1:
+					args = append(args, "-raw", "-output=grid.out")
+				default:
+					cs.Kind = "script"
+					cs.Lines = hexAll([]string{"top", "o", "tags", "traces >t.out"})
+				}
+				if f.base > 0 {
+					cs.Bases, cs.Diff = []string{ph}, f.base == 2
+				}
+				cs.Args = hexAll(args)
+				cs.Text = fmt.Sprintf("grid: source spec %q (pprof %q, binary=%v, twice=%v, http=%v, base=%d, script=%q) x profile shape %q", f.name, args, f.binary, f.twice, f.remote, f.base, unhexAll(cs.Lines), sh.name)
+				out = append(out, cs)
 			}
 		}
 	}
